@@ -64,17 +64,9 @@ def verus_shared(tier, seed):
         res['verus'] = digest_verus(r, scratch)
         res['verus_cmd'] = r['cmd'].replace(scratch, '<scratch>')
         if want_canary and res['verus']['compiled']:
-            # vacuity canary: every spliced `ensures` gets `false` conjoined; every verified fn with its
-            # own ensures and a body must now FAIL
-            sc2 = tempfile.mkdtemp(prefix='hpke_canary_')
-            try:
-                vrun.build_scratch(sc2, canary=True)
-                rc = vrun.run_verus(sc2, [])
-                res['canary'] = canary_digest(rc, stats, sc2)
-            finally:
-                shutil.rmtree(sc2, ignore_errors=True)
+            res['canary'] = canary_runs(stats)
             # second solver seed: disagreement is undecided, not an alarm
-            r2 = vrun.run_verus(scratch, ['-V', 'smt-option=smt.random_seed=%d' % (1 + seed % 1000)])
+            r2 = vrun.run_verus(scratch, ['--smt-option', 'smt.random_seed=%d' % (1 + seed % 1000)])
             d2 = digest_verus(r2, scratch)
             res['seed2'] = {'verified': d2.get('verified'), 'errors': d2.get('errors'),
                             'agree': d2.get('errors') == res['verus'].get('errors') and d2.get('compiled') == res['verus'].get('compiled'),
@@ -158,26 +150,47 @@ def classify(msg):
     return None
 
 
-def canary_digest(rc, stats, scratch):
-    d = digest_verus(rc, scratch)
-    failed_lines = set()
-    for e in d['errors_list']:
-        for sp in e['spans']:
-            failed_lines.add((sp['file'], sp['line']))
-    # a function "fails" in the canary when some error has a span inside its line range
-    index = getattr(stats, 'index', [])
-    expect, missing = 0, []
-    for fn in index:
-        if fn['external'] or not fn['has_body']:
-            continue
-        own_ensures = bool(fn['tags'])
-        if not own_ensures:
-            continue
-        expect += 1
-        hit = any(f == fn['rel'] and fn['start'] <= (l or 0) <= fn['end'] for (f, l) in failed_lines)
-        if not hit:
-            missing.append('%s::%s' % (fn['rel'], fn['fname']))
-    return {'expected_to_fail': expect, 'did_not_fail': missing, 'compiled': d['compiled'], 'errors': d['errors'], 'wall_s': d['wall_s']}
+def canary_one(args):
+    """vacuity canary for ONE function: `false` is conjoined to that function's own ensures (callee
+    contracts stay intact); the function must then fail to verify"""
+    fn, = args
+    sc = tempfile.mkdtemp(prefix='hpke_canary_')
+    try:
+        vrun.build_scratch(sc)
+        p = os.path.join(sc, 'src', fn['rel'])
+        lines = open(p).read().split('\n')
+        done = False
+        for i in range(fn['start'] - 1, fn['body']):
+            m = re.search(r'\bensures\b', lines[i])
+            if m:
+                lines[i] = lines[i][:m.end()] + ' false,' + lines[i][m.end():]
+                done = True
+                break
+        if not done:
+            return {'fn': '%s::%s' % (fn['rel'], fn['fname']), 'status': 'no-ensures'}
+        open(p, 'w').write('\n'.join(lines))
+        r = vrun.run_verus(sc, [], threads=2)
+        d = digest_verus(r, sc)
+        hit = False
+        for e in d['errors_list']:
+            for sp in e['spans']:
+                if sp['file'] == fn['rel'] and fn['start'] <= (sp['line'] or 0) <= fn['end']:
+                    hit = True
+        return {'fn': '%s::%s' % (fn['rel'], fn['fname']), 'status': 'failed-as-required' if hit else ('not-compiled' if not d['compiled'] else 'VACUOUS'),
+                'errors': d['errors']}
+    finally:
+        shutil.rmtree(sc, ignore_errors=True)
+
+
+def canary_runs(stats):
+    from concurrent.futures import ThreadPoolExecutor
+    todo = [fn for fn in stats.index if not fn['external'] and fn['has_body'] and fn['tags']]
+    t0 = time.time()
+    with ThreadPoolExecutor(max_workers=8) as ex:
+        out = list(ex.map(canary_one, [(fn,) for fn in todo]))
+    return {'expected_to_fail': len(todo), 'did_not_fail': [o['fn'] for o in out if o['status'] not in ('failed-as-required', 'no-ensures')],
+            'detail': [o for o in out if o['status'] not in ('failed-as-required', 'no-ensures')],
+            'requires_only': [o['fn'] for o in out if o['status'] == 'no-ensures'], 'compiled': True, 'wall_s': round(time.time() - t0, 1)}
 
 
 # ------------------------------------------------------------------------------- attribution
